@@ -306,8 +306,12 @@ def _history(case):
                     srcs = [src, src2]
                     res = sorted({int(c.binsize) * 2, b2 * 2})
                     files.append(src2) if src2 not in files else None
-                trail.append(["zoomify", res, cs, "two bases (int32 + float64)" if isinstance(srcs, list) else "one base"])
-                impl(cooler.zoomify_cooler, srcs, p, res, cs)
+                # the dtypes argument omitted, or an explicit empty dict (what `cooler zoomify --field count` passes): with two
+                # bases each level takes the dtype of ITS base either way (D27, repaired)
+                zkw = {"dtypes": {}} if (force2 or rng.random() < 0.5) else {}
+                trail.append(["zoomify", res, cs, "two bases (int32 + float64)" if isinstance(srcs, list) else "one base",
+                              "dtypes={}" if zkw else "dtypes omitted"])
+                impl(cooler.zoomify_cooler, srcs, p, res, cs, **zkw)
                 r = _check_file(p, f"zoomify {res}", trail)
                 if r:
                     return r
